@@ -76,7 +76,8 @@ def _c18_battery():
 
     try:
         for kind in ("syntax-error-in-import", "unknown-reference-in-import", "unknown-reference-in-main",
-                     "object-processor", "model-processor"):
+                     "object-processor", "model-processor", "object-processor-plain-exception",
+                     "model-processor-plain-exception", "scope-provider-plain-exception"):
             w("ok.m", 'import "lib.m"\nitem k\nuse b\n')
             w("lib.m", "item b\n")
             w("a.m", 'import "lib.m"\nimport "c.m"\nitem a\nuse b\n')
@@ -84,16 +85,25 @@ def _c18_battery():
             mm = metamodel_from_str(grammar, global_repository=True)
             mm.register_scope_providers({"*.*": sp.FQNImportURI()})
             state = {"fail": True}
-            if kind == "object-processor":
-                def proc(item, _s=state):
+            exc_cls = ValueError if kind.endswith("plain-exception") else TextXError
+            if kind.startswith("object-processor"):
+                def proc(item, _s=state, _e=exc_cls):
                     if _s["fail"] and item.name == "a":
-                        raise TextXError("processor says no")
+                        raise _e("processor says no")
                 mm.register_obj_processors({"Item": proc})
-            if kind == "model-processor":
-                def mproc(model, metamodel, _s=state):
+            if kind.startswith("model-processor"):
+                def mproc(model, metamodel, _s=state, _e=exc_cls):
                     if _s["fail"] and (model._tx_filename or "").endswith("a.m"):
-                        raise TextXError("model processor says no")
+                        raise _e("model processor says no")
                 mm.register_model_processor(mproc)
+            if kind.startswith("scope-provider"):
+                inner = sp.FQNImportURI()
+
+                def prov(obj, attr, ref, _s=state, _i=inner):
+                    if _s["fail"] and ref.obj_name == "b" and (obj.parent._tx_filename or "").endswith("a.m"):
+                        raise KeyError("provider breaks")
+                    return _i(obj, attr, ref)
+                mm.register_scope_providers({"*.*": inner, "Use.ref": prov})
             if kind == "syntax-error-in-import":
                 w("c.m", "item item item\n")
             if kind == "unknown-reference-in-import":
@@ -133,6 +143,11 @@ def _c18_battery():
 @replay_for("metamodel._known_model_files")
 def _replay_c18(model, rec):
     pid = rec.get("property")
+    if pid in ("C13", "C14"):
+        from .c13 import _c13_battery
+
+        bad = _c13_battery()
+        return bool(bad), "; ".join(bad) or "object-processor battery passes"
     if pid == "C09":
         from .c09 import _c09_battery
 
